@@ -131,6 +131,18 @@ def eval_under_closed(e, value='CLOSED'):
                 return r if isinstance(op, ast.In) else (not r)
     return None
 
+STATE_NEUTRAL_ATTRS = {'writer', 'reader', 'receive_callback', 'status_callback', 'seed_network_map', '_receive_task', '_process_queue_task', 'queue', 'lock', '_send_lock',
+                       'logger', 'decoder', 'encoder', 'type', 'host', 'port', '_buffer', 'serial_port'}
+
+def may_encode_state(test):
+    """an undecided test that reads something of the client this analysis does not know (another attribute, a property, a method): it may stand for
+    the connection state, so a path through it is no witness under an assumed state.  Tests over locals and over the attributes listed above
+    (none of which holds the state) can go both ways in every state."""
+    for n in ast.walk(test):
+        if isinstance(n, ast.Attribute) and isinstance(n.value, ast.Name) and n.value.id == 'self' and n.attr not in STATE_NEUTRAL_ATTRS:
+            return True
+    return False
+
 def establishes_not_closed(cfg, p, label):
     """edge (p --label-->) proves self._state != CLOSED at its target"""
     n = cfg.nodes[p]
@@ -648,10 +660,18 @@ def fault_path(chk, program, rule='FAULT-PATH'):
                     def atom(e, sv=sv):
                         r = eval_under_closed(e, sv)
                         return NotImplemented if r is None else r
-                    return reach_with_flags(g, start, avoid, atom)
-                miss_u = g.exit.id in reach_state(H, set(U))
-                miss_k = g.exit.id in reach_state(H, set(Kc))
-                order_ok = all(g.exit.id not in reach_state(u, set(Kc)) for u in U) if U else False
+                    return reach_with_flags(g, start, avoid, atom, taint=may_encode_state)
+                ru, ru_sure = reach_state(H, set(U))
+                rk, rk_sure = reach_state(H, set(Kc))
+                miss_u = g.exit.id in ru
+                miss_k = g.exit.id in rk
+                order_ok = all(g.exit.id not in reach_state(u, set(Kc))[0] for u in U) if U else False
+                if (miss_u and g.exit.id not in ru_sure) or (miss_k and g.exit.id not in rk_sure):
+                    # the only paths that skip the report / the reconnect pass a test this analysis cannot evaluate under the assumed state and that
+                    # reads something of the client it does not know: no witness
+                    chk.unknown(rule, f"{inst}::state={sv}", 'the fault handler branches on something of the client that may stand for the connection state '
+                                '(not a comparison of self._state with a State member): whether a path skips the report is not decided', IO, g.nodes[H].line)
+                    continue
                 chk.check(not miss_u, rule, f"{inst}::reports-DISCONNECTED::state={sv}", file=IO, line=g.nodes[H].line, func=q,
                           expected=f"with the client {sv}, every path through the fault handler calls _update_state(State.DISCONNECTED)", found='a path skips it' if miss_u else 'ok')
                 chk.check(not miss_k and order_ok, rule, f"{inst}::reconnects::state={sv}", file=IO, line=g.nodes[H].line, func=q,
@@ -667,6 +687,11 @@ def fault_path(chk, program, rule='FAULT-PATH'):
                     return NotImplemented if r is None else r
                 return reach_with_flags(g, start, (), atom)
             rc = reach_closed(H)
+            from .cfg import reach_with_flags as _rwf
+            rc_sure = _rwf(g, H, (), lambda e: (NotImplemented if eval_under_closed(e, 'CLOSED') is None else eval_under_closed(e, 'CLOSED')), taint=may_encode_state)[1]
+            if ((set(U) | set(Kc)) & rc) and not ((set(U) | set(Kc)) & rc_sure):
+                chk.unknown(rule, f"{inst}::quiet-when-CLOSED", 'the fault handler branches on something of the client that may stand for the connection state: whether it acts when CLOSED is not decided', IO, g.nodes[H].line)
+                continue
             chk.check(not (set(U) & rc) and not (set(Kc) & rc), rule, f"{inst}::quiet-when-CLOSED", file=IO, line=g.nodes[H].line, func=q,
                       expected='with the client CLOSED the handler neither changes the state nor reconnects', found='reachable' if (set(U) | set(Kc)) & rc else 'ok')
 
@@ -783,6 +808,18 @@ def retry_by_hand(chk, program, g, rule='RETRY'):
     generic = [h for h in hs if any(x in ('Exception', 'BaseException', '<bare>') for x in handler_names(g.nodes[h].ast))]
     leaks = any(v == g.raise_exit.id for v, l in g.succ[A] if l == 'exc')
     if not generic or leaks:
+        # a context manager around the attempt may swallow the failure (tenacity's `with attempt:` does): when the attempt sits in a `with` over
+        # anything but a lock, or the loop draws its attempts from an iterator this analysis does not know, whether the failure leaves is not decided
+        t_ = g.nodes[A].ast
+        inside_with = None
+        while hasattr(t_, '_parent') and t_ is not fn:
+            t_ = t_._parent
+            if isinstance(t_, (ast.With, ast.AsyncWith)) and not all(is_self_attr(i.context_expr, ('lock', '_send_lock')) for i in t_.items):
+                inside_with = t_
+        if inside_with is not None:
+            chk.unknown(rule, 'connect::retry-on', f"the attempt runs inside `with {ast.unparse(inside_with.items[0].context_expr)[:40]}`, a context manager that may take the failure: "
+                        'retry policy not decided', IO, g.nodes[A].line)
+            return
         chk.violation(rule, 'connect::retry-on', file=IO, line=g.nodes[A].line, func=q, expected='a failing attempt is caught (except Exception) and retried',
                       found='the exception of _connect_impl leaves connect()' if leaks or not generic else '')
         return
@@ -936,10 +973,43 @@ def one_rx(chk, program, rule='ONE-RX'):
             t = t._parent
             if isinstance(t, ast.AsyncWith) and any(is_self_attr(i.context_expr, ('lock',)) for i in t.items):
                 locked = True
-        chk.check(locked, rule, f"{q}::under-lock", file=IO, line=node.lineno, func=q, expected='inside `async with self.lock`', found=locked)
+        if not locked:
+            # the start site sits in a helper coroutine: it runs under the lock when every call of the helper does (followed up to three levels)
+            def callers_locked(meth, depth=0):
+                # calls, and the method handed over as a value (to a retry helper awaited at that place)
+                calls_ = [(q2, c2) for q2, f2 in program.mod('ioclient').defs.items() for c2 in ast.walk(f2)
+                          if isinstance(c2, ast.Attribute) and c2.attr == meth and isinstance(c2.value, ast.Name) and c2.value.id == 'self' and isinstance(c2.ctx, ast.Load)
+                          and q2.count('.') == 1]
+                if not calls_ or depth > 3:
+                    return None
+                res = True
+                for q2, c2 in calls_:
+                    t2 = c2; l2 = False
+                    while hasattr(t2, '_parent'):
+                        t2 = t2._parent
+                        if isinstance(t2, ast.AsyncWith) and any(is_self_attr(i.context_expr, ('lock',)) for i in t2.items):
+                            l2 = True
+                    if not l2:
+                        up = callers_locked(q2.split('.')[-1], depth + 1)
+                        if up is None:
+                            return None
+                        res = res and up
+                return res
+            via = callers_locked(q.split('.')[-1])
+            if via is None:
+                chk.unknown(rule, f"{q}::under-lock", f"the receive loop is started in {q}, outside `async with self.lock`, and the calls of {q} could not all be followed", IO, node.lineno)
+            else:
+                chk.check(via, rule, f"{q}::under-lock", file=IO, line=node.lineno, func=q, expected='inside `async with self.lock` (directly, or in a helper only ever called there)', found=via)
+        else:
+            chk.check(True, rule, f"{q}::under-lock", file=IO, line=node.lineno, func=q, expected='inside `async with self.lock`', found=locked)
         # stored into _receive_task
         st = g.nodes[nid].ast
         stored = isinstance(st, ast.Assign) and any(is_self_attr(x, ('_receive_task',)) for x in st.targets)
+        kept_elsewhere = isinstance(st, (ast.Assign, ast.AnnAssign)) or (isinstance(st, ast.Expr) and isinstance(st.value, ast.Call) and st.value is not node and
+                                                                         not (isinstance(st.value.func, ast.Attribute) and st.value.func.attr in ('create_task', 'ensure_future')))
+        if not stored and kept_elsewhere:
+            chk.unknown(rule, f"{q}::stored", f"the receive task is kept somewhere else than self._receive_task ({stmt_key(st)[:60]}): who cancels it was not followed", IO, node.lineno)
+            continue
         chk.check(stored, rule, f"{q}::stored", file=IO, line=node.lineno, func=q, expected='task stored in self._receive_task', found=stmt_key(st))
         # on every path to the start site the previous task is absent, finished or has been cancelled: a forward must-analysis.
         # X = self._receive_task or a local bound to it; the world "X is a task that is still running" makes `X` true, `X is None` false, `X.done()` false;
